@@ -67,6 +67,7 @@ type Kernel struct {
 	nextPort    int
 	Faults      []*NetFault
 	DialLog     []DialRec
+	DumpNet     func(conn int, to string, dir int, data []byte)
 	LatencyMenu []time.Duration // menu from which per-connection latency is drawn (index 0 = plain)
 	SegmentPct  int             // probability (percent) that a delivery is split
 	SendBuf     int             // per-direction buffer capacity
